@@ -168,12 +168,16 @@ def _run_flat(arg):
         elif (list(a) if a else None) != (list(b) if b else None):
             late.append({"job": old, "job_in_flattened_graph": new, "nested_tree (start, end, how)": a,
                          "flattened_graph (start, end, how)": b, "first_abort_instant": T})
-    if not diffs and not late and T != float("inf") and o1 and o2 and o1[:3] != o2[:3]:
+    if not diffs and not late and T != float("inf") and o1 and o2 and not same_outcome(o1, o2, ren):
         late.append({"outcome_of_run_nested": o1, "outcome_of_run_flattened": o2, "first_abort_instant": T})
     if diffs:
         return diffs
     if late and not (critical_failure_at(cfg, t1, T) or critical_failure_at(c2, t2, T)):
-        return late
+        # T is an instant at which a scheduler ends with forever jobs to cancel (or a handler is cut by a
+        # shutdown_timeout): whether a job that becomes eligible in that very instant is still started
+        # (and cancelled at once) depends on the order of callbacks inside the instant, which nesting
+        # changes, and what follows may depend on it: not compared (DESIGN 0.4)
+        return []
     if late:
         # known finding F9: from the first instant at which a critical job raises, the nested tree and
         # the flattened graph may part (the nested run finishes its own cleanup before its parent
@@ -185,7 +189,8 @@ def _run_flat(arg):
 F10_SIGNATURE = "c10_nested_shutdown_delays_successors"
 F10_TEXT = ("a nested scheduler whose jobs have shutdown handlers of non-zero duration ends only after its own shutdown "
             "phase (C13: its jobs receive co_shutdown when the nested run ends), so the jobs that require it start later "
-            "than in the flattened graph, where those handlers run at the end of the enclosing run; witness "
+            "than in the flattened graph, where those handlers run at the end of the enclosing run (and the enclosing run, "
+            "hence its forever jobs, lasts longer); witness "
             "root{m{x: 1 s, co_shutdown 2 s}, y requires m}: y runs from 3 to 4, in the flattened graph from 1 to 2")
 
 
@@ -213,7 +218,9 @@ def _run_flat_slow(arg):
         sa, sb = (a[0] if a else INF), (b[0] if b else INF)
         ea, eb = (a[1] if a and a[1] is not None else INF), (b[1] if b and b[1] is not None else INF)
         ha, hb = (a[2] if a else None), (b[2] if b else None)
-        if sa >= sb and ea >= eb and (ha == hb or ha is None or ha == "cancelled"):
+        # later in the nested tree, same outcome -- or a forever job, cancelled when the run ends, that
+        # lives longer (and may even finish) because the nested run ends later
+        if sa >= sb and ea >= eb and (ha == hb or (hb == "cancelled" and cfg["jobs"][old]["forever"])):
             diffs.append(d)
         else:
             other.append(d)
@@ -231,6 +238,19 @@ F9_TEXT = ("from the first instant T at which a critical job raises, a tree with
            "while the flattened graph cancels them at T; jobs that tie with the abort at T may start or end in one and not "
            "in the other; witness root{m1{x critical raises at 1; z with a 2 s cancellation handler}, m2{y critical raises "
            "at 2}}: y raises at 2 and run() raises y's exception, flattened: y is cancelled at 1 and run() raises x's")
+
+
+def same_outcome(o1, o2, ren):
+    """outcomes of the two top-level runs, the identity of a job's exception being carried through the
+    renumbering (tag 2*j for the exception of job j)"""
+    if o1[0] != o2[0]:
+        return False
+    if o1[0] != "raise":
+        return True
+    t1, t2 = o1[1], o2[1]
+    if isinstance(t1, int) and t1 % 2 == 0 and (t1 // 2) in ren:
+        return t2 == 2 * ren[t1 // 2]
+    return list(o1[1:3]) == list(o2[1:3])
 
 
 def critical_failure_at(cfg, tl, T):
